@@ -451,8 +451,8 @@ static void run_create_case(const Case& c, const Mesh& m, Stats& st, bool lenien
 
 // ---------------------------------------------------------------- setter family
 static const char* const SETTERS[] = {"positions", "positions-grow", "positions-shrink", "uvs", "normals", "tangents", "bitangents", "colours", "eyedata",
-									   "triangles-reversed", "triangles-empty", "triangles-drop-first", "triangles-duplicate", "bounds"};
-static const int NSETTERS = 14;
+									   "triangles-reversed", "triangles-empty", "triangles-drop-first", "triangles-duplicate", "bounds", "triangles-reorder"};
+static const int NSETTERS = 15;
 
 static std::vector<Vector3> gen_v3(int n, int a, const float* lat) {
 	std::vector<Vector3> r;
@@ -556,6 +556,26 @@ static void run_setter_case(const Case& c, Stats& st, bool presave = false, Snap
 		else {
 			for (int i = 0; i < V; i++) w1.push_back(L9[(i + a2) % 9]);
 			NifFile::SetEyeDataForShape(shape, w1);
+		}
+	}
+	else if (S == "triangles-reorder") {
+		// NifFile::ReorderTriangles: the triangles the shape has now, in the order of an index list (here: rotated by one, then
+		// reversed); a list of the wrong length or with an index out of range must be refused and change nothing
+		std::vector<Triangle> cur;
+		shape->GetTriangles(cur);
+		if (cur.size() < 2) applicable = false;
+		else {
+			std::vector<uint32_t> idx;
+			for (size_t i = 0; i < cur.size(); i++) idx.push_back((uint32_t) ((cur.size() - i) % cur.size()));
+			for (auto i : idx) wt.push_back(cur[i]);
+			std::vector<uint32_t> shortList(idx.begin(), idx.end() - 1), badList = idx;
+			badList[0] = (uint32_t) cur.size();
+			bool r1 = nif.ReorderTriangles(shape, shortList), r2 = nif.ReorderTriangles(shape, badList);
+			std::vector<Triangle> still;
+			shape->GetTriangles(still);
+			if (r1 || r2 || !vec_same(still, cur))
+				viol(x, "setter:triangles-reorder:bad-list-not-refused", vf::strf("ReorderTriangles with a list of the wrong length returns %d, with an index out of range %d; triangles %s", (int) r1, (int) r2, vec_same(still, cur) ? "unchanged" : "changed"));
+			if (!nif.ReorderTriangles(shape, idx)) viol(x, "setter:triangles-reorder:refused", "ReorderTriangles refuses a permutation of the triangle indices");
 		}
 	}
 	else if (S.rfind("triangles", 0) == 0) {
